@@ -228,9 +228,10 @@ def history(ctx, kind, viol, st, directed=None):
                     pass
                 elif form == "all":
                     for k in range(m):
-                        y = npr.randn(n)
-                        mdl.add_sample(X, y, k)
+                        y = npr.randn(n); Xk = X.copy()
+                        mdl.add_sample(Xk, y, k)
                         held[k] += [(tuple(x), float(v)) for x, v in zip(X, y)]
+                        Xk.fill(0.5); y.fill(7.0)                    # caller reuses its buffers
                 elif form == "int":
                     k = rng.randrange(m); y = npr.randn(n)
                     mdl.add_sample(X, y, k)
@@ -245,6 +246,9 @@ def history(ctx, kind, viol, st, directed=None):
                 mdl.add_sample(X, Y)
                 for k in range(m):
                     held[k] += [(tuple(x), float(v)) for x, v in zip(X, Y[:, k])]
+                if script or step % 2 == 0:
+                    # the arrays belong to the caller, who reuses them (directed histories, and every second add otherwise)
+                    X.fill(0.5); Y.fill(7.0)
             ops_done.append("add")
         elif r < 0.8:
             if kind == "corr" and not any(held[0]) and mdl.model is None:
